@@ -179,8 +179,8 @@ fn pair<T: CE, N: ArrayLength>(ety: &str, a: &[i64], b: &[i64], total: bool, out
     let _ = total;
     writeln!(
         out,
-        "{{\"ev\":\"cmp\",\"ety\":\"{}\",\"a\":{},\"b\":{},\"self_eq\":{},\"self_pcmp\":{},\"sself_eq\":{},\"eq\":{},\"ne\":{},\"lt\":{},\"le\":{},\"gt\":{},\"ge\":{},\"pcmp\":{},\"seq\":{},\"sne\":{},\"slt\":{},\"sle\":{},\"sgt\":{},\"sge\":{},\"spcmp\":{}}}",
-        ety, list(a), list(b), { let r = &x; r == r }, { let r = &x; ord(r.partial_cmp(r)) }, { let r = sx; r == r }, x == y, x != y, x < y, x <= y, x > y, x >= y, ord(x.partial_cmp(&y)),
+        "{{\"ev\":\"cmp\",\"ety\":\"{}\",\"a\":{},\"b\":{},\"self_eq\":{},\"self_ne\":{},\"self_pcmp\":{},\"sself_eq\":{},\"eq\":{},\"ne\":{},\"lt\":{},\"le\":{},\"gt\":{},\"ge\":{},\"pcmp\":{},\"seq\":{},\"sne\":{},\"slt\":{},\"sle\":{},\"sgt\":{},\"sge\":{},\"spcmp\":{}}}",
+        ety, list(a), list(b), { let r = &x; r == r }, { let r = &x; r != r }, { let r = &x; ord(r.partial_cmp(r)) }, { let r = sx; r == r }, x == y, x != y, x < y, x <= y, x > y, x >= y, ord(x.partial_cmp(&y)),
         sx == sy, sx != sy, sx < sy, sx <= sy, sx > sy, sx >= sy, ord(sx.partial_cmp(sy))
     )
     .unwrap();
